@@ -333,7 +333,8 @@ def r06_4_bool_and_prefix(ctx):
     ctx.analysed(st.fq)
     sv = Sym("sv", methods={"store": lambda x: Rec("call", Rec("name", "STORE"), [x], {})})
     selfs = Sym("self", attrs={"_stored_value": sv, "$isa": {"Bool", "BaseType"}}, methods={"type_spec": lambda: W.spec(("bool",))})
-    for v, want in ((True, "STORE(Int(1))"), (False, "STORE(Int(0))"), (Sym("e", attrs={"$isa": {"Expr"}}, methods={"type_of": lambda: "TealType.uint64"}), "STORE(Not(Not(e)))")):
+    exprs = [Sym("e", attrs={"$isa": {"Expr"} | extra_isa}, methods={"type_of": lambda: "TealType.uint64"}) for extra_isa in (set(), {"BinaryExpr"}, {"UnaryExpr"}, {"NaryExpr"}, {"ScratchLoad", "LeafExpr"}, {"TernaryExpr"})]
+    for v, want in [(True, "STORE(Int(1))"), (False, "STORE(Int(0))")] + [(e_, "STORE(Not(Not(e)))") for e_ in exprs]:
         def extra(e, me):
             if isinstance(e, ast.Call) and u(e.func) == "require_type":
                 return None
@@ -343,7 +344,7 @@ def r06_4_bool_and_prefix(ctx):
             txt = strip(val)
         except Raised as r:
             txt = "raises " + r.exc_text[:40]
-        ctx.check(txt == want, "R06.4", f"Bool.set[{v if not isinstance(v, Sym) else 'expr'}]", f"gives {txt}; expected {want}", st.where, fact={})
+        ctx.check(txt == want, "R06.4", f"Bool.set[{v if not isinstance(v, Sym) else 'expression of class ' + '/'.join(sorted(v.attrs['$isa'] - {'Expr'}) or ['Expr'])}]", f"gives {txt}; expected {want} (any uint64 expression - a difference, a bitwise and, a loaded value - can exceed 1 and must be normalised)", st.where, fact={})
     # dynamic array length prefix
     ar = ctx.model.find_class("Array", "pyteal.ast.abi.array_base")
     st = ar.methods["set"]
